@@ -27,6 +27,15 @@ Tie:
                writer's objects not gone (except the exempted no-grace prune of objects not yet referenced at scan
                time); model vs real: the repack procedure of the Lean model (removal targets = snapshot) on the
                abstracted run.
+  sched.refs   gc / prune_unreachable_objects / repack(exclude=unreachable) interleaved with a ref packer (dulwich
+               pack_refs(all=True) as an actor, `git pack-refs --all --prune` as a process before each read) at every
+               read of refs/, packed-refs and HEAD; refs loose-only / packed-only / both, each with an otherwise
+               unreachable closure; oracle: every ref keeps its value and its closure stays readable, git fsck
+               --connectivity-only clean; model: per ref, roots = union of the views read (c10.roots).
+  gc.config    gc.pruneExpire in {unset, now, never, N.units.ago, yesterday, dates, 0, garbage, ...} in the repository's
+               config, an included file and the global config, through porcelain.gc(), the CLI `gc` and
+               get_prune_grace_period(); oracle: nothing younger than the expiry the value denotes TO GIT (git config
+               --type=expiry-date) disappears, an error removes nothing; model vs real: graceOf vs the real function.
   scheduler    reader actor(s) (store[id], id in store, iteration) interleaved at system-call granularity with a
                repacking actor (harness/sched.py); oracle: an object that exists throughout is never reported
                missing; model vs real: the sequence of system calls with outcomes, result and pack cache of every
@@ -146,7 +155,83 @@ def translate(repo: Path) -> dict:
     bound = [n.lineno for n in ast.walk(rp) if isinstance(n, (ast.Assign, ast.AnnAssign))
              for t in (n.targets if isinstance(n, ast.Assign) else [n.target]) if isinstance(t, ast.Name) and t.id in it_names]
     snapshot_only = bool(it_names) and not fresh and bool(bound) and max(bound) < copy_at[0] < loops[0].lineno
+    # ---- enumeration of the roots: read order of the ref storage
+    refs_tree = T.module_ast(repo / "dulwich" / "refs.py")
+
+    def first_call_line(fn, attr):
+        ls = [n.lineno * 1000 + n.col_offset for n in ast.walk(fn) if isinstance(n, ast.Call)
+              and isinstance(n.func, ast.Attribute) and n.func.attr == attr]
+        if not ls:
+            raise T.TranslateError(f"{fn.name}: no call of {attr}")
+        return min(ls)
+    ak = T.find_def(refs_tree, "DiskRefsContainer.allkeys")
+    allkeys_loose_first = first_call_line(ak, "_iter_loose_refs") < first_call_line(ak, "get_packed_refs")
+    rr = T.find_def(refs_tree, "RefsContainer.read_ref")
+    readref_loose_first = first_call_line(rr, "read_loose_ref") < first_call_line(rr, "get_packed_refs")
+    fro = T.find_def(gc_tree, "find_reachable_objects")
+    enum_calls = {n.func.attr for n in ast.walk(fro) if isinstance(n, ast.Call) and isinstance(n.func, ast.Attribute)
+                  and isinstance(n.func.value, ast.Name) and n.func.value.id == "refs_container"}
+    roots_via_allkeys = enum_calls == {"allkeys"}
+    # ---- gc.pruneExpire
+    gp = T.find_def(gc_tree, "get_prune_grace_period")
+    kw_table = []
+    for n in ast.walk(gp):
+        if isinstance(n, ast.If) and isinstance(n.test, ast.Compare) and len(n.test.ops) == 1 \
+                and isinstance(n.test.ops[0], (ast.Eq, ast.In)) and isinstance(n.test.left, ast.Name) and n.test.left.id == "value":
+            lits = T.eval_literal(n.test.comparators[0])
+            lits = [lits] if isinstance(lits, str) else list(lits)
+            rets = [b for b in n.body if isinstance(b, ast.Return)]
+            if len(rets) != 1:
+                raise T.TranslateError("get_prune_grace_period: keyword branch without a single return")
+            try:
+                rv = T.eval_literal(rets[0].value, gc_tree)
+            except T.TranslateError:
+                raise T.TranslateError("get_prune_grace_period: keyword branch returns a non-literal")
+            if rv is not None and not (isinstance(rv, int) and rv >= 0):
+                raise T.TranslateError(f"get_prune_grace_period: keyword branch returns {rv!r}")
+            kw_table += [(k, rv) for k in lits]
+    unset_default = None
+    raises = True
+    for n in ast.walk(gp):
+        if isinstance(n, ast.Try):
+            for h in n.handlers:
+                names = {x.id for x in ast.walk(h.type) if isinstance(x, ast.Name)} if h.type is not None else {"*"}
+                if "KeyError" in names and len(names) == 1:
+                    rets = [b for b in h.body if isinstance(b, ast.Return)]
+                    if len(rets) == 1:
+                        unset_default = T.eval_literal(rets[0].value, gc_tree)
+                else:
+                    # a handler that could swallow the parser's ValueError
+                    if any(isinstance(c, ast.Call) and getattr(c.func, "id", getattr(c.func, "attr", "")) == "parse_approxidate"
+                           for b in n.body for c in ast.walk(b)) or names & {"ValueError", "Exception", "BaseException", "*"}:
+                        raises = False
+    if not isinstance(unset_default, int):
+        raise T.TranslateError("get_prune_grace_period: default for an unset key not found")
+    last = gp.body[-1]
+    formula_ok = isinstance(last, ast.Return) and isinstance(last.value, ast.Call) and getattr(last.value.func, "id", "") == "max" \
+        and len(last.value.args) == 2 and T.eval_literal(last.value.args[0]) == 0 \
+        and "time.time() - timestamp" in ast.unparse(last.value.args[1])
+    pg = T.find_def(T.module_ast(repo / "dulwich" / "porcelain" / "__init__.py"), "gc")
+    fwd = False
+    for n in ast.walk(pg):
+        if isinstance(n, ast.If) and ast.unparse(n.test) == "grace_period is None" and len(n.body) == 1 \
+                and isinstance(n.body[0], ast.Assign) and "get_prune_grace_period(" in ast.unparse(n.body[0].value) \
+                and ast.unparse(n.body[0].targets[0]) == "grace_period":
+            fwd = True
+    gcall = [n for n in ast.walk(pg) if isinstance(n, ast.Call) and getattr(n.func, "id", "") == "garbage_collect"]
+    fwd = fwd and len(gcall) == 1 and any(k.arg == "grace_period" and ast.unparse(k.value) == "grace_period" for k in gcall[0].keywords)
+    cg = T.find_def(T.module_ast(repo / "dulwich" / "cli.py"), "cmd_gc.run")
+    inits = [n for n in ast.walk(cg) if isinstance(n, (ast.Assign, ast.AnnAssign))
+             and ast.unparse(n.targets[0] if isinstance(n, ast.Assign) else n.target) == "grace_period"]
+    first = min(inits, key=lambda n: n.lineno) if inits else None
+    pcall = [n for n in ast.walk(cg) if isinstance(n, ast.Call) and ast.unparse(n.func) == "porcelain.gc"]
+    cli_ok = first is not None and first.value is not None and ast.unparse(first.value) == "None" and len(pcall) == 1 \
+        and any(k.arg == "grace_period" and ast.unparse(k.value) == "grace_period" for k in pcall[0].keywords) \
+        and all(isinstance(getattr(n, "value", None), ast.AST) and (n is first or "parse_approxidate" in ast.unparse(cg) ) for n in inits)
     progs = _recorded_programs(repo)
+
+    def lean_str(x):
+        return '"' + x.replace("\\", "\\\\").replace('"', '\\"') + '"'
 
     def prog(name):
         return "[" + ", ".join(f"({a}, {b})" for a, b in progs[name]["prog"]) + "]"
@@ -192,6 +277,23 @@ def gcNewPack : Nat := {progs["gc"]["new"]}
 def gcProtected : List Nat := {progs["gc"]["prot"]}
 /-- `repack()`'s removal loop iterates a variable bound before the copy (`old_packs`), not a fresh directory listing -/
 def repackRemovesSnapshotOnly : Bool := {"true" if snapshot_only else "false"}
+/-- `DiskRefsContainer.allkeys` reads the loose tree before packed-refs; `RefsContainer.read_ref` the loose file before
+packed-refs; `find_reachable_objects` enumerates the roots with `allkeys()` only -/
+def allkeysReadsLooseFirst : Bool := {"true" if allkeys_loose_first else "false"}
+def readRefReadsLooseFirst : Bool := {"true" if readref_loose_first else "false"}
+def gcRootsViaAllkeys : Bool := {"true" if roots_via_allkeys else "false"}
+/-- `pack_refs(all=True)` on two loose refs, recorded: 0 = packed-refs renamed into place, 1 = a loose ref file removed -/
+def packRefsProgram : List Nat := {progs["packrefs"]["prog"]}
+/-- `get_prune_grace_period`: keywords it answers itself (`none` = the API's None), default for an unset key, whether an
+unparsable value propagates as an error, whether the result is `max(0, now - timestamp)` -/
+def pruneExpireKeywords : List (String × Option Nat) := [{", ".join("(" + lean_str(k) + ", " + ("none" if v is None else "some " + str(v)) + ")" for k, v in kw_table)}]
+def pruneExpireUnsetDefault : Nat := {unset_default}
+def pruneExpireUnparsableRaises : Bool := {"true" if raises else "false"}
+def pruneExpireGraceIsNowMinusTimestamp : Bool := {"true" if formula_ok else "false"}
+/-- `porcelain.gc` asks `get_prune_grace_period` when no grace period is given and passes the result on; the CLI passes
+None unless `--prune` is given -/
+def porcelainGcForwardsConfiguredGrace : Bool := {"true" if fwd else "false"}
+def cliGcDefaultsToConfig : Bool := {"true" if cli_ok else "false"}
 /-- the same recorded programs with the pack-directory listings (tag 6) in place -/
 def repackProgramL : List (Nat × Nat) := {prog("repackL")}
 def gcProgramL : List (Nat × Nat) := {prog("gcL")}
@@ -307,6 +409,28 @@ def _record_main():
         newname = [n for n, k in packs.items() if k == new]
         in_new = _idx_ids(root / "objects" / "pack" / (newname[0] + ".idx")) if newname else set()
         out[name] = {"prog": prog, "new": new, "prot": sorted(k for h, k in objs.items() if h in in_new)}
+    # pack_refs(all=True) on two loose refs
+    root = scratch / "packrefs"
+    shutil.rmtree(root, ignore_errors=True)
+    root.mkdir(parents=True)
+    r = Repo.init_bare(str(root))
+    bl = Blob.from_string(b"ref target\n")
+    r.object_store.add_object(bl)
+    r.refs[b"refs/heads/a"] = bl.id
+    r.refs[b"refs/tags/b"] = bl.id
+    r.close()
+    r = Repo(str(root))
+    with sched.Recorder(str(root)) as rec:
+        r.refs.pack_refs(all=True)
+    r.close()
+    pr = []
+    for _who, call, paths, outcome in rec.events:
+        dst = paths[-1] if paths else ""
+        if outcome == "ok" and call in ("rename", "replace") and dst == "packed-refs":
+            pr.append(0)
+        elif outcome == "ok" and call in ("remove", "unlink") and (dst or "").startswith("refs/"):
+            pr.append(1)
+    out["packrefs"] = {"prog": pr}
     print(json.dumps(out))
 
 
@@ -2548,6 +2672,498 @@ def _stream_writer_git(ctx, nscen, stream="sched.writer.git", first_idx=400000):
 
 
 # ------------------------------------------------------------------------------------------------
+# sched.refs: the ROOT ENUMERATION of gc / prune races with a ref packer
+
+CLS_REFS_NONE = None
+
+
+def _refs_read(call, paths):
+    p = (paths[-1] if paths else "") or ""
+    return call in ("open-r", "listdir", "scandir", "stat", "lstat", "access") and \
+        (p == "HEAD" or p == "packed-refs" or p == "refs" or p.startswith("refs/"))
+
+
+def _refs_write(call, paths):
+    p = (paths[-1] if paths else "") or ""
+    return (call in ("rename", "replace") and p == "packed-refs") or \
+        (call in ("remove", "unlink", "rmdir") and p.startswith("refs/"))
+
+
+def build_rscenario(ctx, idx):
+    """Refs with otherwise unreachable closures: some loose only, some packed only, some both; all objects old."""
+    from dulwich.repo import Repo
+    from dulwich.objects import Blob, Tree, Commit
+    rng = _case_rng(ctx, "rf", idx)
+    sc = WScenario()
+    sc.idx = idx
+    sc.template = ctx.scratch / f"rf{idx}-tpl"
+    shutil.rmtree(sc.template, ignore_errors=True)
+    sc.template.mkdir(parents=True)
+    repo = Repo.init_bare(str(sc.template))
+    st = repo.object_store
+    salt = rng.getrandbits(30)
+    sc.objs, sc.kids, sc.refs = {}, {}, {}
+    names = [b"refs/heads/main", b"refs/heads/a", b"refs/heads/d/e", b"refs/tags/t1", b"refs/remotes/o/x", b"refs/notes/n"]
+    rng.shuffle(names)
+    names = names[: rng.randint(3, 6)]
+    if b"refs/heads/main" not in names:
+        names[0] = b"refs/heads/main"
+    kinds = {}
+    for i, n in enumerate(names):
+        bl = Blob.from_string(b"ref %d %d\n" % (salt, i))
+        tr = Tree()
+        tr.add(b"f", 0o100644, bl.id)
+        c = Commit()
+        c.tree = tr.id
+        c.author = c.committer = b"A U Thor <a@example.com>"
+        c.author_time = c.commit_time = 1000 + i
+        c.author_timezone = c.commit_timezone = 0
+        c.message = b"r %d %d\n" % (salt, i)
+        for o, ks in ((bl, []), (tr, [bl]), (c, [tr])):
+            sc.objs[o.id.decode()] = (o.type_num, o.as_raw_string())
+            sc.kids[o.id.decode()] = [k.id.decode() for k in ks]
+        if rng.random() < 0.5:
+            st.add_objects([(bl, None), (tr, None), (c, None)])
+        else:
+            for o in (bl, tr, c):
+                st.add_object(o)
+        sc.refs[n] = c.id.decode()
+        kinds[n] = rng.choice(["loose", "loose", "packed", "both"])
+        repo.refs[n] = c.id
+    junk = Blob.from_string(b"unreachable %d\n" % salt)
+    st.add_object(junk)
+    sc.objs[junk.id.decode()] = (junk.type_num, junk.as_raw_string())
+    repo.close()
+    env = core.clean_env()
+    # packed-only: pack them all with git, then re-create the loose files of the "loose"/"both" ones
+    packed = [n for n in names if kinds[n] in ("packed", "both")]
+    if packed:
+        core.sh(["git", "-C", str(sc.template), "pack-refs", "--all", "--prune"], env=env)
+        # drop the "loose"-only ones from packed-refs again
+        keep = [l for l in (sc.template / "packed-refs").read_bytes().splitlines(True)
+                if l.startswith(b"#") or l.split()[-1] in packed or l.startswith(b"^")]
+        (sc.template / "packed-refs").write_bytes(b"".join(keep))
+        for n in names:
+            if kinds[n] in ("loose", "both"):
+                pth = sc.template / n.decode()
+                pth.parent.mkdir(parents=True, exist_ok=True)
+                pth.write_bytes(sc.refs[n].encode() + b"\n")
+    old = time.time() - 7200
+    for dp, _, fs in os.walk(sc.template / "objects"):
+        for f in fs:
+            os.utime(os.path.join(dp, f), (old, old))
+    sc.kinds = {k.decode(): v for k, v in kinds.items()}
+    sc.maint = rng.choice(["prune-none", "prune-none", "prune-0", "gc0", "gcNone", "repack-exclude"])
+    sc.packer = rng.choice(["dulwich", "dulwich", "git"])
+    return sc
+
+
+def _rmaint_fn(sc, work):
+    def fn():
+        from dulwich.repo import Repo
+        from dulwich.gc import garbage_collect, prune_unreachable_objects, find_unreachable_objects
+        repo = Repo(str(work))
+        try:
+            m = sc.maint
+            if m == "prune-none":
+                prune_unreachable_objects(repo.object_store, repo.refs, grace_period=None)
+            elif m == "prune-0":
+                prune_unreachable_objects(repo.object_store, repo.refs, grace_period=0)
+            elif m == "gc0":
+                garbage_collect(repo, grace_period=0)
+            elif m == "gcNone":
+                garbage_collect(repo, grace_period=None)
+            else:
+                repo.object_store.repack(exclude=find_unreachable_objects(repo.object_store, repo.refs))
+        finally:
+            repo.close()
+    return fn
+
+
+def _rpacker_fn(sc, work):
+    def fn():
+        from dulwich.repo import Repo
+        repo = Repo(str(work))
+        try:
+            repo.refs.pack_refs(all=True)
+        finally:
+            repo.close()
+    return fn
+
+
+def _run_refs_schedule(ctx, sc, work, schedule, git_at=None):
+    from harness import sched as S
+    shutil.rmtree(work, ignore_errors=True)
+    shutil.copytree(sc.template, work, symlinks=True)
+    s = S.Scheduler(str(work))
+    s.spawn("M", _rmaint_fn(sc, work))
+    if git_at is None:
+        s.spawn("P", _rpacker_fn(sc, work))
+    seq = list(schedule)
+    env = core.clean_env()
+    state = {"cur": None, "done": True, "mblocks": 0}
+
+    def choose(pending, history):
+        if state["cur"] is None or state["done"] or state["cur"] not in pending:
+            a = None
+            while seq:
+                t = seq.pop(0)
+                if t in pending:
+                    a = t
+                    break
+            if a is None:
+                a = sorted(pending)[0]
+            state["cur"], state["done"] = a, False
+        a = state["cur"]
+        call, paths = pending[a]
+        if (a == "M" and _refs_read(call, paths)) or (a == "P" and _refs_write(call, paths)):
+            state["done"] = True
+            if a == "M":
+                if git_at is not None and state["mblocks"] == git_at:
+                    rc, out = core.sh(["git", "-C", str(work), "pack-refs", "--all", "--prune"], env=env, timeout=60)
+                    if rc != 0 and ".lock" not in out:     # losing the race for packed-refs.lock is a clean failure
+                        raise core.InfraError("git pack-refs failed: " + out[-300:])
+                    state["git_failed"] = rc != 0
+                state["mblocks"] += 1
+        return a
+    s.run(choose)
+    return s
+
+
+def _refs_oracle(ctx, stream, sc, work, s, schedule, extra=None):
+    from dulwich.repo import Repo
+    hist = [e for e in s.history if e[1] != "start"]
+    mexc = s.results["M"].exc
+    pexc = s.results["P"].exc if "P" in s.results else None
+    case = dict({"kind": "refs", "scenario_idx": sc.idx, "seed": ctx.seed, "maint": sc.maint, "packer": sc.packer,
+                 "ref_kinds": sc.kinds, "schedule": list(schedule),
+                 "maint_raised": None if mexc is None else f"{type(mexc).__name__}: {mexc}"[:120],
+                 "packer_raised": None if pexc is None else f"{type(pexc).__name__}: {pexc}"[:120],
+                 "ref_events": [(e[0], e[1], (e[2][-1] or "")[-40:], e[3]) for e in hist
+                                if _refs_read(e[1], e[2]) or _refs_write(e[1], e[2])][:120]}, **(extra or {}))
+    repo = Repo(str(work))
+    bad_refs, bad_objs = [], []
+    try:
+        for n, v in sc.refs.items():
+            try:
+                now_v = repo.refs[n].decode()
+            except KeyError:
+                now_v = None
+            if now_v != v:
+                bad_refs.append((n.decode(), now_v))
+                continue
+            todo = [v]
+            while todo:
+                h = todo.pop()
+                try:
+                    got = repo.object_store.get_raw(h.encode())
+                except KeyError:
+                    got = None
+                if got != sc.objs[h]:
+                    bad_objs.append((n.decode(), h))
+                todo.extend(sc.kids.get(h, []))
+    finally:
+        repo.close()
+    ctx.count(stream, (sc.idx, tuple(schedule), sc.maint, sc.packer), True,
+              f"{sc.maint}:{sc.packer}:{'Mraised' if mexc else 'Mok'}:{'Praised' if pexc else 'Pok'}")
+    if bad_refs:
+        ctx.oracle_fail(stream, dict(case, refs=bad_refs), f"ref {bad_refs[0][0]} changed or vanished while {sc.packer} "
+                        f"pack-refs and {sc.maint} ran (now {bad_refs[0][1]})", "ref-lost-by-packer")
+    if bad_objs:
+        ctx.oracle_fail(stream, dict(case, lost=bad_objs[:6]),
+                        f"{bad_objs[0][0]} (stored {sc.kinds[bad_objs[0][0]]}, same value throughout) reaches {bad_objs[0][1][:10]} "
+                        f"which is gone after {sc.maint} ran while {sc.packer} pack-refs packed the refs", None)
+        return
+    rc, out = core.sh(["git", "-C", str(work), "-c", "core.commitGraph=false", "fsck", "--connectivity-only", "--no-dangling",
+                       "--no-progress"], env=core.clean_env(), timeout=120)
+    bad = _drop_reflog_only(ctx, {l for l in out.splitlines() if l.startswith(("missing", "broken link", "error", "fatal", "bad "))},
+                            set(sc.objs))
+    if bad:
+        ctx.oracle_fail(stream, dict(case, fsck=sorted(bad)[:5]), f"git fsck --connectivity-only after {sc.maint} + pack-refs: "
+                        f"{sorted(bad)[0]}", None)
+
+
+def _stream_refs(ctx, nscen, max_pre, cap, nrandom, stream="sched.refs", first_idx=0, only=None):
+    from harness import sched as S
+    total = 0
+    lines, wants, metas = [], [], []
+    for i in range(nscen):
+        sc = build_rscenario(ctx, first_idx + i)
+        rng = _case_rng(ctx, "rfs", sc.idx)
+        work = ctx.scratch / f"rf{sc.idx}-work"
+        try:
+            # block counts
+            lens = {}
+            for a, fn, sig in (("M", _rmaint_fn(sc, work), _refs_read), ("P", _rpacker_fn(sc, work), _refs_write)):
+                shutil.rmtree(work, ignore_errors=True)
+                shutil.copytree(sc.template, work, symlinks=True)
+                s0 = S.Scheduler(str(work))
+                s0.spawn(a, fn)
+                lens[a] = sum(1 for e in s0.run([]) if sig(e[1], e[2])) + 1
+            if sc.packer == "git":
+                for k in range(lens["M"] + 1):
+                    s = _run_refs_schedule(ctx, sc, work, [], git_at=k)
+                    _refs_oracle(ctx, stream, sc, work, s, [f"git-pack-refs-before-maintenance-ref-read-{k}"], {"git_at": k})
+                    total += 1
+            else:
+                for schedule in _schedules_for(ctx, rng, lens, max_pre, cap) + [_random_schedule(rng, lens) for _ in range(nrandom)]:
+                    s = _run_refs_schedule(ctx, sc, work, schedule)
+                    _refs_oracle(ctx, stream, sc, work, s, schedule)
+                    total += 1
+                    # model vs real, per ref: was it a root?  abstract the run to (state of the ref when M read the loose tree
+                    # entry / packed-refs for the LAST time during allkeys) -- done on the event history
+                    hist = [e for e in s.history if e[1] != "start"]
+                    for n, v in sc.refs.items():
+                        nm = n.decode()
+                        p_write = next((k for k, e in enumerate(hist) if e[0] == "P" and e[1] in ("rename", "replace")
+                                        and e[2][-1] == "packed-refs" and e[3] == "ok"), None)
+                        p_unlink = next((k for k, e in enumerate(hist) if e[0] == "P" and e[1] in ("remove", "unlink")
+                                         and e[2][-1] == nm and e[3] == "ok"), None)
+                        m_loose = next((k for k, e in enumerate(hist) if e[0] == "M" and e[1] in ("scandir", "listdir")
+                                        and e[2][-1] == os.path.dirname(nm)), None)
+                        m_packed = next((k for k, e in enumerate(hist) if e[0] == "M" and e[1] == "open-r"
+                                         and e[2][-1] == "packed-refs"), None)
+                        if m_loose is None or (m_packed is None and sc.kinds[nm] != "loose"):
+                            continue
+                        if m_packed is None:
+                            m_packed = len(hist)
+                        prog, pos = [], {}
+                        evs = sorted([(k, a) for k, a in ((p_write, 0), (p_unlink, 1)) if k is not None])
+                        prog = [a for _, a in evs]
+
+                        def state_index(t):
+                            return sum(1 for k, _ in evs if k < t)
+                        init = {"loose": "l", "packed": "p", "both": "b"}[sc.kinds[nm]]
+                        lines.append(f"c10.roots {init} {_enc_ids(prog)} {state_index(m_loose)} {state_index(m_packed)}")
+                        metas.append({"kind": "refs", "scenario_idx": sc.idx, "ref": nm, "schedule": list(schedule)})
+        finally:
+            shutil.rmtree(sc.template, ignore_errors=True)
+            shutil.rmtree(work, ignore_errors=True)
+    if lines:
+        outs = ctx.driver.batch(lines)
+        for line, meta, o in zip(lines, metas, outs):
+            ctx.count(stream + ".model", (meta["scenario_idx"], meta["ref"], line), True)
+            # on the unchanged read order the model must say "seen" for every ref of every run (the oracle checked the
+            # consequence on the real code); a "not seen" means the abstraction found the loose tree read after packed-refs
+            if o != "1":
+                ctx.disagree(stream + ".model", dict(meta, line=line), o, "1 (ref existed throughout and its closure survived)")
+    ctx.extra_cov["refs_schedules"] = ctx.extra_cov.get("refs_schedules", 0) + total
+
+
+# ------------------------------------------------------------------------------------------------
+# gc.config: the grace period AS CONFIGURED (gc.pruneExpire), through porcelain.gc / the CLI / get_prune_grace_period
+
+CONFIG_AGES = [30, 1800, 7200, 13 * 86400, 15 * 86400, 400 * 86400]
+CLS_MONTH = "pruneExpire-month-counted-as-30-days"
+CLS_NEGATIVE = "pruneExpire-negative-relative-time-means-no-grace"
+CLS_GLOBAL = "pruneExpire-in-global-config-ignored"
+
+
+def _config_values(now):
+    import datetime
+    d20 = datetime.datetime.fromtimestamp(now - 20 * 86400).strftime("%Y-%m-%d")
+    dt3h = datetime.datetime.fromtimestamp(now - 3 * 3600).strftime("%Y-%m-%d %H:%M:%S")
+    vals = [("unset", None), ("local", "now"), ("local", "never"), ("local", "2.weeks.ago"), ("local", "1.hour.ago"),
+            ("local", "0"), ("local", "90.seconds.ago"), ("local", "5400 seconds ago"), ("local", "3.days.ago"),
+            ("local", "yesterday"), ("local", d20), ("local", dt3h), ("local", "garbage"), ("local", "1 hour"),
+            ("local", "all"), ("local", "false"), ("local", "1.month.ago"), ("local", "-1.hour.ago"),
+            ("include", "never"), ("include", "1.hour.ago"), ("global", "never"), ("global", "1.hour.ago"), ("local", " now ")]
+    return vals
+
+
+def _classify_value(v, now):
+    """(kind, arg) for the driver's c10.grace: the value's SHAPE, by the harness's own rules"""
+    import datetime
+    if v is None:
+        return "unset", "-"
+    t = v.strip()
+    # the code's units (a month is 30 days, a year 365 days there)
+    units = {"second": 1, "minute": 60, "hour": 3600, "day": 86400, "week": 604800, "month": 2592000, "year": 31536000}
+    m = _re.fullmatch(r"(-?)(\d+)[ .]([a-z]+?)s?[ .]ago", t)
+    if m and m.group(3) in units:
+        secs = int(m.group(2)) * units[m.group(3)]
+        if m.group(1):          # "-1.hour.ago": the code computes a time in the FUTURE, i.e. an absolute instant now + secs
+            return "abs", str(int(now) + secs)
+        return "ago", str(secs)
+    if _re.fullmatch(r"\d+", t):     # a bare integer is taken as a Unix timestamp by the code
+        return "abs", t
+    if t == "yesterday":
+        return "ago", "86400"
+    for fmt in ("%Y-%m-%d %H:%M:%S", "%Y-%m-%d"):
+        try:
+            return "abs", str(int(datetime.datetime.strptime(t, fmt).timestamp()))
+        except ValueError:
+            pass
+    if _re.fullmatch(r"[A-Za-z]+", t):
+        return "kw", t
+    return "other", "-"
+
+
+def config_case(ctx, idx, where, value, path, stream="gc.config"):
+    from dulwich.repo import Repo
+    from dulwich.objects import Blob, Tree, Commit
+    from dulwich.gc import garbage_collect, get_prune_grace_period
+    from dulwich import porcelain
+    root = ctx.scratch / f"cf{idx}"
+    home = ctx.scratch / f"cf{idx}-home"
+    for d in (root, home):
+        shutil.rmtree(d, ignore_errors=True)
+        d.mkdir(parents=True)
+    repo = Repo.init_bare(str(root))
+    st = repo.object_store
+    bl = Blob.from_string(b"reachable %d\n" % idx)
+    tr = Tree()
+    tr.add(b"f", 0o100644, bl.id)
+    c = Commit()
+    c.tree = tr.id
+    c.author = c.committer = b"A U Thor <a@example.com>"
+    c.author_time = c.commit_time = 1000
+    c.author_timezone = c.commit_timezone = 0
+    c.message = b"c\n"
+    st.add_objects([(bl, None), (tr, None), (c, None)])
+    repo.refs[b"refs/heads/main"] = c.id
+    now = time.time()
+    ages = {}
+    extra_ages = list(CONFIG_AGES)
+    env = core.clean_env({"HOME": str(home), "XDG_CONFIG_HOME": str(home / "xdg")})
+
+    def git(*a):
+        return core.sh(["git", "-C", str(root)] + list(a), env=env, timeout=60)
+    if where == "local":
+        git("config", "gc.pruneExpire", value)
+    elif where == "include":
+        (root / "inc.cfg").write_text(f"[gc]\n\tpruneExpire = {value}\n")
+        git("config", "include.path", "inc.cfg")
+    elif where == "global":
+        (home / ".gitconfig").write_text(f"[gc]\n\tpruneExpire = {value}\n")
+    # git's reading of the configured expiry
+    rc, out = git("config", "--type=expiry-date", "gc.pruneExpire")
+    out = out.strip().splitlines()[-1] if out.strip() else ""
+    if where == "unset" or (rc != 0 and not out):
+        git_expiry, git_says = now - GIT_DEFAULT_GRACE, "default"
+    elif rc != 0:
+        git_expiry, git_says = now - GIT_DEFAULT_GRACE, "unparsable"     # must not be worse than the default
+    else:
+        n = int(out)
+        git_expiry, git_says = (now if n >= 2 ** 62 else n), out
+    if value in ("1.month.ago",) and git_says.isdigit():
+        mid = (now - int(git_says) + 30 * 86400) / 2
+        if abs((now - int(git_says)) - 30 * 86400) > 7200:
+            extra_ages.append(int(mid))
+    for i, age in enumerate(extra_ages):
+        u = Blob.from_string(b"unreachable %d age %d\n" % (idx, age))
+        st.add_object(u)
+        ages[u.id.decode()] = age
+    up = Blob.from_string(b"unreachable packed old %d\n" % idx)
+    pk = st.add_objects([(up, None)])
+    ages[up.id.decode()] = 500 * 86400
+    repo.close()
+    for h, age in ages.items():
+        pth = root / "objects" / h[:2] / h[2:]
+        if pth.exists():
+            os.utime(pth, (now - age, now - age))
+    for ext in (".pack", ".idx"):
+        os.utime(pk._basename + ext, (now - 500 * 86400, now - 500 * 86400))
+    # the model's and the code's idea of the grace period
+    kind, arg = _classify_value(value, now)
+    saved_home, saved_xdg, saved_cwd = os.environ.get("HOME"), os.environ.get("XDG_CONFIG_HOME"), os.getcwd()
+    os.environ["HOME"], os.environ["XDG_CONFIG_HOME"] = str(home), str(home / "xdg")
+    outcome, real_grace = "ok", None
+    try:
+        r2 = Repo(str(root))
+        try:
+            try:
+                real_grace = get_prune_grace_period(r2.get_config())
+            except Exception as e:
+                real_grace = "refuse:" + type(e).__name__
+        finally:
+            r2.close()
+        try:
+            if path == "porcelain":
+                porcelain.gc(str(root))
+            elif path == "cli":
+                from dulwich.cli import cmd_gc
+                os.chdir(root)
+                rc_ = cmd_gc().run(["-q"])
+                if rc_:
+                    outcome = f"cli-exit-{rc_}"
+            else:
+                r3 = Repo(str(root))
+                try:
+                    garbage_collect(r3, grace_period=get_prune_grace_period(r3.get_config()))
+                finally:
+                    r3.close()
+        except Exception as e:
+            outcome = "raised:" + type(e).__name__
+    finally:
+        os.chdir(saved_cwd)
+        for k, v in (("HOME", saved_home), ("XDG_CONFIG_HOME", saved_xdg)):
+            if v is None:
+                os.environ.pop(k, None)
+            else:
+                os.environ[k] = v
+    lo, pks = observe(root / "objects")
+    present = set(lo) | {h for ids, _ in pks.values() for h in ids}
+    case = {"kind": "config", "case": idx, "where": where, "value": value, "path": path, "git_expiry": git_says,
+            "dulwich_grace": real_grace, "outcome": outcome}
+    ctx.count(stream, (where, value, path), True, f"{where}:{value}:{path}:{outcome.split(':')[0]}")
+    for h in (bl.id.decode(), tr.id.decode(), c.id.decode()):
+        if h not in present:
+            ctx.oracle_fail(stream, dict(case, object=h), f"reachable object gone after gc with gc.pruneExpire={value!r}", None)
+    for h, age in sorted(ages.items(), key=lambda x: x[1]):
+        if h in present:
+            continue
+        if outcome != "ok":
+            ctx.oracle_fail(stream, dict(case, object=h, age=age), f"gc reported {outcome} for gc.pruneExpire={value!r} and "
+                            f"still removed an object ({age} s old)", None)
+            break
+        if now - age > git_expiry + 10:
+            cls = None
+            if value == "1.month.ago":
+                cls = CLS_MONTH
+            elif value.strip().startswith("-"):
+                cls = CLS_NEGATIVE
+            elif where == "global":
+                cls = CLS_GLOBAL
+            what = {"default": "is unset (two weeks)", "unparsable": "cannot be parsed (the default of two weeks must hold)"}.get(
+                git_says, f"means 'expire before {git_says}' ({int(now - git_expiry)} s ago) to git")
+            ctx.oracle_fail(stream, dict(case, object=h, age=age),
+                            f"gc via {path} removed an unreachable object only {age} s old although gc.pruneExpire={value!r} "
+                            f"({where}) {what}; dulwich derived grace {real_grace}", cls)
+            break
+    shutil.rmtree(root, ignore_errors=True)
+    shutil.rmtree(home, ignore_errors=True)
+    return f"c10.grace {int(now)} {kind} {arg if kind != 'kw' else arg}", real_grace, case, int(now), where
+
+
+def _stream_config(ctx, stream="gc.config"):
+    rng = _case_rng(ctx, "cf", 0)
+    now = time.time()
+    recs = []
+    vals = _config_values(now)
+    for i, (where, value) in enumerate(vals):
+        paths = ["porcelain", "cli", "api"] if ctx.thorough else [["porcelain", "cli", "api"][(i + ctx.seed) % 3]]
+        if where in ("global", "include") and not ctx.thorough:
+            paths = ["porcelain"]
+        for path in paths:
+            recs.append(config_case(ctx, i * 10 + ["porcelain", "cli", "api"].index(path), where, value, path, stream))
+    outs = ctx.driver.batch([r[0] for r in recs])
+    for (line, real, case, now_i, where), o in zip(recs, outs):
+        ctx.count(stream + ".model", (case["where"], case["value"], case["path"]), True)
+        if where == "global":
+            continue      # the code reads the repository's own configuration only (see the known finding)
+        mg = o.split("|")[0]
+        if mg == "refuse":
+            ok = isinstance(real, str) and real.startswith("refuse")
+        elif mg == "none":
+            ok = real is None
+        else:
+            ok = isinstance(real, int) and abs(int(mg.split(":")[1]) - real) <= 5
+        if not ok:
+            ctx.disagree(stream + ".model", dict(case, line=line), o, repr(real))
+
+
+# ------------------------------------------------------------------------------------------------
 # corpus (negation witnesses of the known findings + regression cases), run first
 
 def _run_corpus(ctx):
@@ -2601,20 +3217,25 @@ def run(ctx: core.Ctx):
     ]
     ctx.extra_cov["translated_constants"] = c
     _run_corpus(ctx)
-    _stream_logical(ctx, ctx.budget(120, mult=10))
+    _stream_logical(ctx, ctx.budget(100, mult=12))
     _stream_stale(ctx, ctx.budget(40, mult=8))
+    _stream_config(ctx)
+    if ctx.thorough:
+        _stream_refs(ctx, 14, 2, 100, 12)
+    else:
+        _stream_refs(ctx, ctx.budget(4), 2, 24, 4)
     if ctx.thorough:
         _stream_writer(ctx, 16, 2, 100, 16)
         _stream_writer_git(ctx, 8)
     else:
-        _stream_writer(ctx, ctx.budget(7), 2, 36, 6)
+        _stream_writer(ctx, ctx.budget(6), 2, 32, 5)
     if ctx.thorough:
         _stream_sched(ctx, 60, 2, 250, 30)
         _stream_sched(ctx, 16, 3, 400, 50, first_idx=100000)
         _stream_retry_bound(ctx)
         _stream_git_repack(ctx, 20)
     else:
-        _stream_sched(ctx, ctx.budget(10), 2, 110, 10)
+        _stream_sched(ctx, ctx.budget(8), 2, 110, 10)
         _stream_retry_bound(ctx)
         _stream_git_repack(ctx, 2)
 
@@ -2626,6 +3247,12 @@ def search(ctx: core.Ctx):
     if ctx.oracle_failures:
         return
     _stream_stale(ctx, 150, stream="search.stale", first_idx=200000)
+    if ctx.oracle_failures:
+        return
+    _stream_config(ctx, stream="search.config")
+    if ctx.oracle_failures:
+        return
+    _stream_refs(ctx, 20, 3, 300, 40, stream="search.refs", first_idx=200000)
     if ctx.oracle_failures:
         return
     _stream_writer(ctx, 20, 3, 300, 40, stream="search.writer", first_idx=200000)
@@ -2645,6 +3272,17 @@ def replay(ctx: core.Ctx, data: dict) -> int:
         recs = logical_case(ctx, c["case"], spec=c.get("spec"), stream="replay")
         if recs:
             _compare_logical(ctx, recs, "replay")
+    elif c.get("kind") == "config":
+        rec = config_case(ctx, c["case"], c["where"], c["value"], c["path"], "replay")
+    elif c.get("kind") == "refs":
+        sc = build_rscenario(ctx, c["scenario_idx"])
+        sc.maint, sc.packer = c["maint"], c["packer"]
+        work = ctx.scratch / "rf-replay"
+        try:
+            s_ = _run_refs_schedule(ctx, sc, work, c["schedule"] if "git_at" not in c else [], git_at=c.get("git_at"))
+            _refs_oracle(ctx, "replay", sc, work, s_, c["schedule"])
+        finally:
+            shutil.rmtree(sc.template, ignore_errors=True)
     elif c.get("kind") == "writer":
         if "external_before_block" in c:
             print("replay of git fetch/push runs: re-run ./check C10 --tier thorough with the same seed")
